@@ -257,3 +257,118 @@ Example C09_dilworth_diamond_width_is_two :
   (exists A', NoDup A' /\ incl A' xE /\ incompatible_in (Aug.aug_edges xV xE [] [] 0%N 5%N) A' /\ length A' = 2%nat).
 Proof. exact diamond_width_two. Qed.
 Print Assumptions C09_dilworth_diamond_width_is_two.
+
+(* The cyclic half (WalkWidth.v): "minimum walk covers; width equals it".  G is a digraph with source s and sink t in which every edge
+   lies on an s-t walk, X the edges to be covered.  (a) On G itself: the least number of s-t walks covering X equals the largest
+   number of edges of X no two of which lie on a common walk of G (Dilworth's theorem applied to one representative per strongly
+   connected component plus the edges between components, ordered by one-way reachability; inside a component one closed walk
+   through all its to-be-covered edges is spliced in).  (b) The expanded condensation as stDiGraph builds it (hedges: node 2c is
+   "c", node 2c+1 is "c_expanded"; one edge per component that has an edge, one per condensation edge) with the weights get_width
+   hands to the minimum flow (hweight: number of kept edges between two components; 1 for a component with a kept edge, else 0):
+   every family of k s-t walks covering the kept edges runs along k source-to-sink paths of it that pass every edge at least
+   weight-many times (projection: soundness of the lower bound the cyclic minimum searches start from), and every such family of
+   paths has at least as many members as any set of kept edges no two on a common walk.  Hence (c) the three numbers coincide:
+   least walk cover = least number of paths of the expanded condensation meeting the multiplicities (the minimum flow get_width
+   computes) = walk width.  The hypotheses about the condensation are those the verified checker Reach.cond_ok establishes
+   (_checked form); the E3 stream of the C09 engine ties hedges/hweight to the code and evaluates these premises per instance. *)
+From FP Require WalkWidth.
+Theorem C09_min_walk_cover_equals_walk_width :
+  forall (G : list PathEnc.edge) (s t : node),
+  (forall u v, In (u, v) G -> Dilworth.conn G s u /\ Dilworth.conn G v t) ->
+  forall X : list PathEnc.edge, NoDup X -> incl X G ->
+  exists (W : list (list node)) (A' : list PathEnc.edge),
+    (forall l, In l W -> WalkWidth.st_walk G s t l) /\
+    (forall e, In e X -> exists l, In l W /\ In e (EulerProofs1.pairs l)) /\
+    NoDup A' /\ incl A' X /\ WalkWidth.walk_incompatible G A' /\ length A' = length W.
+Proof. exact WalkWidth.min_walk_cover_equals_walk_width. Qed.
+Print Assumptions C09_min_walk_cover_equals_walk_width.
+
+Theorem C09_walk_cover_has_at_least_walk_width_many_walks :
+  forall (G : list PathEnc.edge) (W : list (list node)) (A' : list PathEnc.edge),
+  NoDup A' -> WalkWidth.walk_incompatible G A' ->
+  (forall l, In l W -> incl (EulerProofs1.pairs l) G) ->
+  (forall e, In e A' -> exists l, In l W /\ In e (EulerProofs1.pairs l)) ->
+  (length A' <= length W)%nat.
+Proof. exact WalkWidth.walk_cover_needs_width_many_walks. Qed.
+Print Assumptions C09_walk_cover_has_at_least_walk_width_many_walks.
+
+Theorem C09_walk_cover_projects_to_the_expanded_condensation :
+  forall (E : list PathEnc.edge) (s t : node) (cm : node -> N) (cn : list N) (cE : list (N * N)) (ign : list PathEnc.edge),
+  (forall u v, In u (Dilworth.nodes_of E) -> In v (Dilworth.nodes_of E) ->
+               (cm u = cm v <-> Dilworth.conn E u v /\ Dilworth.conn E v u)) ->
+  (forall u v, In (u, v) E -> cm u <> cm v -> In (cm u, cm v) cE) ->
+  (forall e, In e E -> In (cm (fst e)) cn /\ In (cm (snd e)) cn) ->
+  NoDup E ->
+  forall W : list (list node),
+  (forall l, In l W -> WalkWidth.st_walk E s t l) ->
+  (forall e, In e E -> WalkWidth.kept ign e = true -> exists l, In l W /\ In e (EulerProofs1.pairs l)) ->
+  (forall p, In p (map (WalkWidth.proj E cm) W) -> WalkWidth.hpath E s t cm cn cE p) /\
+  WalkWidth.multicover E cm cn cE ign (map (WalkWidth.proj E cm) W) /\
+  length (map (WalkWidth.proj E cm) W) = length W.
+Proof. exact WalkWidth.walk_cover_projects. Qed.
+Print Assumptions C09_walk_cover_projects_to_the_expanded_condensation.
+
+Theorem C09_condensation_paths_are_at_least_walk_width_many :
+  forall (E : list PathEnc.edge) (cm : node -> N) (cn : list N) (cE : list (N * N)) (ign : list PathEnc.edge),
+  (forall u v, In u (Dilworth.nodes_of E) -> In v (Dilworth.nodes_of E) ->
+               (cm u = cm v <-> Dilworth.conn E u v /\ Dilworth.conn E v u)) ->
+  (forall u v, In (u, v) E -> cm u <> cm v -> In (cm u, cm v) cE) ->
+  (forall a b, In (a, b) cE -> a <> b /\ exists u v, In (u, v) E /\ cm u = a /\ cm v = b) ->
+  (forall e, In e E -> In (cm (fst e)) cn /\ In (cm (snd e)) cn) ->
+  forall (A' : list PathEnc.edge) (P : list (list N)),
+  NoDup A' -> (forall e, In e A' -> In e E /\ WalkWidth.kept ign e = true) -> WalkWidth.walk_incompatible E A' ->
+  (forall p, In p P -> incl (EulerProofs1.pairs p) (WalkWidth.hedges E cm cn cE)) ->
+  WalkWidth.multicover E cm cn cE ign P -> (length A' <= length P)%nat.
+Proof. exact WalkWidth.multicover_needs_walk_width_many_paths. Qed.
+Print Assumptions C09_condensation_paths_are_at_least_walk_width_many.
+
+Theorem C09_min_walk_cover_equals_condensation_width :
+  forall (E : list PathEnc.edge) (s t : node) (cm : node -> N) (cn : list N) (cE : list (N * N)) (ign : list PathEnc.edge),
+  (forall u v, In (u, v) E -> Dilworth.conn E s u /\ Dilworth.conn E v t) ->
+  (forall u v, In u (Dilworth.nodes_of E) -> In v (Dilworth.nodes_of E) ->
+               (cm u = cm v <-> Dilworth.conn E u v /\ Dilworth.conn E v u)) ->
+  (forall u v, In (u, v) E -> cm u <> cm v -> In (cm u, cm v) cE) ->
+  (forall a b, In (a, b) cE -> a <> b /\ exists u v, In (u, v) E /\ cm u = a /\ cm v = b) ->
+  (forall e, In e E -> In (cm (fst e)) cn /\ In (cm (snd e)) cn) ->
+  NoDup E ->
+  exists k : nat,
+    (exists W, WalkWidth.walk_cover E s t ign W /\ length W = k) /\
+    (forall W, WalkWidth.walk_cover E s t ign W -> (k <= length W)%nat) /\
+    (exists P, WalkWidth.condensation_cover E s t cm cn cE ign P /\ length P = k) /\
+    (forall P, WalkWidth.condensation_cover E s t cm cn cE ign P -> (k <= length P)%nat) /\
+    (exists A', NoDup A' /\ (forall e, In e A' -> In e E /\ WalkWidth.kept ign e = true) /\
+                WalkWidth.walk_incompatible E A' /\ length A' = k).
+Proof. exact WalkWidth.min_walk_cover_equals_condensation_width. Qed.
+Print Assumptions C09_min_walk_cover_equals_condensation_width.
+
+Theorem C09_min_walk_cover_equals_condensation_width_checked :
+  forall (V : list node) (E : list PathEnc.edge) (C : Reach.cond) (s t : node) (ign : list PathEnc.edge),
+  Reach.cond_ok V E C = true -> NoDup E -> WalkWidth.st_ok E s t = true ->
+  let cm := Reach.c_map C in let cn := Reach.c_topo C in let cE := Reach.c_edges C in
+  exists k : nat,
+    (exists W, WalkWidth.walk_cover E s t ign W /\ length W = k) /\
+    (forall W, WalkWidth.walk_cover E s t ign W -> (k <= length W)%nat) /\
+    (exists P, WalkWidth.condensation_cover E s t cm cn cE ign P /\ length P = k) /\
+    (forall P, WalkWidth.condensation_cover E s t cm cn cE ign P -> (k <= length P)%nat) /\
+    (exists A', NoDup A' /\ (forall e, In e A' -> In e E /\ WalkWidth.kept ign e = true) /\
+                WalkWidth.walk_incompatible E A' /\ length A' = k).
+Proof. exact WalkWidth.min_walk_cover_equals_condensation_width_checked. Qed.
+Print Assumptions C09_min_walk_cover_equals_condensation_width_checked.
+
+(* non-vacuity on a 2-cycle with a tail (0 -> 1 <-> 2 -> 3 -> 4, source 0, sink 4): the premises of the checked form hold, the
+   expanded condensation is the path "0" -> "1" -> "1_expanded" -> "2" -> "3" with all weights 1, and one walk covers every edge *)
+Example C09_walk_width_premises_satisfiable :
+  Reach.cond_ok WalkWidth.cyV WalkWidth.cyE WalkWidth.cyC = true /\ NoDup WalkWidth.cyE /\ WalkWidth.st_ok WalkWidth.cyE 0%N 4%N = true.
+Proof. exact WalkWidth.two_cycle_premises. Qed.
+Print Assumptions C09_walk_width_premises_satisfiable.
+
+Example C09_two_cycle_expanded_condensation :
+  WalkWidth.condense_model WalkWidth.cyE [(0, 0); (1, 1); (2, 1); (3, 2); (4, 3)]%N [0; 1; 2; 3]%N [(0, 1); (1, 2); (2, 3)]%N [] =
+  [((2, 3)%N, 1%nat); ((0, 2)%N, 1%nat); ((3, 4)%N, 1%nat); ((4, 6)%N, 1%nat)].
+Proof. exact WalkWidth.two_cycle_condensation. Qed.
+Print Assumptions C09_two_cycle_expanded_condensation.
+
+Example C09_two_cycle_is_covered_by_one_walk :
+  WalkWidth.walk_cover WalkWidth.cyE 0%N 4%N [] [[0; 1; 2; 1; 2; 3; 4]%N].
+Proof. exact WalkWidth.two_cycle_one_walk. Qed.
+Print Assumptions C09_two_cycle_is_covered_by_one_walk.
